@@ -363,7 +363,7 @@ def main() -> int:
     rep = Report(PROP)
     t = tier()
     sd = seed()
-    n = 150 if t == "quick" else 3000
+    n = 300 if t == "quick" else 3000
     for case, st, res in run_cases(run_case, [(i, sd, ()) for i in range(n)]):
         if st != "ok":
             rep.inconclusive_because(f"case {case} failed: {res[-300:]}")
